@@ -253,6 +253,8 @@ def phase_maxiter(ctx):
     position the slow phase has in the declaration order (no partly converged table)"""
     rng = ctx.rng
     desc = gen.gen_system(rng, phases=1.0, max_nodes=10, p_neg_src_rs=0.0, p_micro=0.0)
+    if rng.random() < 0.3:
+        gen.odd_phase(rng, desc)         # the exception contract does not depend on what a phase is called
     if rng.random() < 0.5 and len(desc.get("phases") or {}) >= 2:
         items = list(desc["phases"].items())
         rng.shuffle(items)
